@@ -180,16 +180,16 @@ def conds(tier):
     q = tier == "quick"
     cs = []
     # singles: punctuation transformations with all word assignments; the others with edge assignments
-    pshapes = [(1, 1), (2, 1), (2, 2), (2, 3)] if q else [(1, 1), (2, 1), (3, 1), (2, 2), (2, 3), (3, 3), (3, 4)]
+    pshapes = [(1, 1), (2, 1), (2, 2), (2, 3)] if q else [(1, 1), (2, 1), (3, 1), (2, 2), (2, 3), (3, 3)]
     for (m, n) in pshapes:
         ws = [P("w%d" % j, "int", 0, 3) for j in range(1, n + 1)]
         cs.append(Cond("punct-m%d-n%d" % (m, n), "harness.c04:single", e1_params(m, n) + ws + [P("t", "int", 6, 9), P("relc", "bool")],
                        fixed={"m": m, "n": n, "mark": 0, "bare": False, "preset": 0}, pre=[e1_wf_expr(m, n), "t == 7 or not relc"],
                        shard=["t"] + (["w1"] if m * n >= 9 else []) + (["lp1"] if m * n >= 12 else []),
                        timeout=600 if q else 3000, functions=FUNCS[6:9]))
-    sshapes = [(1, 1), (2, 1), (2, 2), (2, 3), (3, 3)] if q else [(1, 1), (2, 1), (3, 1), (2, 2), (2, 3), (3, 3), (3, 4), (4, 4)]
+    sshapes = [(1, 1), (2, 1), (2, 2), (2, 3), (3, 3)] if q else [(1, 1), (2, 1), (3, 1), (2, 2), (2, 3), (3, 3), (3, 4)]
     for (m, n) in sshapes:
-        ne = 1 if q else min(m + n - 1, 3)
+        ne = 1 if (q or m * n >= 12) else min(m + n - 1, 3)
         es = [P("e%d" % j, "int", 0, 3) for j in range(1, ne + 1)]
         cs.append(Cond("struct-m%d-n%d" % (m, n), "harness.c04:single",
                        e1_params(m, n) + es + [P("t", "int", 0, 12), P("mark", "int", 0, 2), P("bare", "bool"), P("preset", "int", 0, 2)],
@@ -199,7 +199,7 @@ def conds(tier):
                        shard=["t"] + (["lp1"] if m * n >= 9 and not q else []) + (["e1"] if not q and m + n >= 5 else []),
                        skip=lambda sf: sf["t"] in (6, 7, 8), timeout=600 if q else 3000, functions=FUNCS))
     for (m, n) in ([(2, 2), (2, 3), (3, 3)] if q else [(2, 3), (3, 3), (3, 4), (4, 4)]):
-        es = [P("e%d" % j, "int", 0, 3) for j in range(1, (2 if q else 4))]
+        es = [P("e%d" % j, "int", 0, 3) for j in range(1, (2 if (q or m * n >= 16) else 4))]
         cs.append(Cond("pipeline-m%d-n%d" % (m, n), "harness.c04:pipeline", e1_params(m, n) + es + [P("mark", "int", 0, 2)],
                        fixed={"m": m, "n": n}, pre=[e1_wf_expr(m, n)], shard=["mark"] + (["lp1"] if m * n >= 9 else []) +
                        (["lp2"] if m * n >= 16 else []),
